@@ -5,6 +5,24 @@ HERE = os.path.dirname(os.path.dirname(os.path.abspath(__file__)))
 
 # id -> (technique, level text, level note, design ref)
 CHECKS = {
+ "C01": ("runtime monitoring: finite-difference VJP oracle on the library's own float64 forward + subgradient oracle at ties + backward-trace / kernel-purity monitors, over enumerated argument grids",
+         "Exploration: every op form of the tensor API is executed on the real code over an enumerated argument grid (all dims/tuples/keepdims, all source/destination pairs, index grammar with repeats, every broadcasting pattern, hostile upstream gradients) and each operand gradient is compared with an exact (affine ops) or Richardson finite-difference VJP. Held = no deviation on the cases listed in the evidence.",
+         "Trusts NumPy float64 arithmetic and the FD oracle (harness/fd.py, tolerances 1e-9/1e-6 relative); reference derivative is that of the library's own forward (values are C05's business).", "DESIGN.md §3.3 O1, §4 C01"),
+ "C02": ("runtime monitoring: finite-difference VJP oracle + subgradient conditions at relu zeros / pooling ties + stride-bounds sanitizer and backward trace, over geometry / mode / reduction grids",
+         "Exploration: each nn op, layer and loss (functional and Module forms) runs on the real code over a grid of geometries, batch-norm modes, reductions and ranks; every differentiable input's gradient is compared with the FD VJP of the library's own forward.",
+         "Trusts NumPy float64 and harness/fd.py; large operands are checked on 24 seeded coordinates + 4 directions; pooling ties judged by necessary subgradient conditions.", "DESIGN.md §4 C02"),
+ "C03": ("runtime monitoring: random DAG programs, FD derivative of the whole composed function, construction-order metamorphic comparison, backward-trace monitor (exactly-once, consumer-before-operand)",
+         "Exploration: thousands of structurally distinct random programs (fan-out, same tensor twice, diamonds, multi-output ops, mixed requires_grad) are differentiated by the real engine; leaf gradients are compared with finite differences of the whole program, across random construction orders, while every backward-function invocation is traced.",
+         "Trusts harness/programs.py's NumPy interpreter only for generating shape-valid programs (the oracle is FD through the library's forward) and harness/monitors.py's graph walk.", "DESIGN.md §4 C03"),
+ "C05": ("runtime monitoring: independent NumPy reference models under a value/raise x documented/undocumented verdict table, kernel argument-mutation sanitizer",
+         "Exploration: forward of every tensor op, constructor, scalar operator form and iteration protocol on the real code, legal argument grids plus illegal variants, both dtypes, compared with reference semantics written from the NumPy/PyTorch docs using a forward-error bound.",
+         "Trusts the reference functions in harness/catalog.py (naive, dim-normalising) and the table of documented forms transcribed from the docstrings.", "DESIGN.md §3.3 O2, §4 C05"),
+ "C06": ("runtime monitoring: naive loop reference models of the PyTorch definitions under the verdict table + exact stride-bounds sanitizer on every as_strided view + crash containment",
+         "Exploration: nn forward ops/layers/losses over the geometry grid (int/tuple/mixed forms, 'same'/'valid', stride None, empty outputs that must raise), position-coded inputs for unfold, all-negative inputs for max-pool padding, both dtypes.",
+         "Trusts harness/ref/nnref.py (explicit loops, written from the PyTorch documentation).", "DESIGN.md §4 C06"),
+ "C09": ("runtime monitoring: stable closed-form float64 value and gradient references (validated against 50-digit mpmath each run) on magnitude sweeps and wide-spread logits, finiteness monitor",
+         "Exploration: the seven stability-critical ops, both forms and dtypes, on inputs up to |x|=1e4 including thresholds +-88/89/710 and rows whose probabilities underflow; values and gradients must be finite and within single precision of the exact result.",
+         "Trusts the closed forms in props/c09_stability.py (cross-checked against mpmath in every run).", "DESIGN.md §4 C09"),
  "C18": ("runtime monitoring: exhaustive small-scope workload + index-arithmetic reference model on id-tagged samples",
          "Exploration: every (n, fractions, shuffle, batch size, transform) configuration of a stated finite grid is executed on the real functions and compared with an executable index model; unique sample ids make loss, duplication, mis-pairing and re-ordering directly observable. Held = held on that grid.",
          "Trusts NumPy and the 40-line model in props/c18_data.py; pkbar replaced by a silent stub if unimportable.", "DESIGN.md §4 C18"),
@@ -34,7 +52,7 @@ def main():
           for p in props if p["id"] not in CHECKS]
     m = {
         "version": 1,
-        "setup_cmd": "/venv/bin/python -B -m harness.selftest",
+        "setup_cmd": "SYNAPGRAD_VERIF=1 /venv/bin/python -B -m harness.selftest",
         "hooks": {
             "guard": "SYNAPGRAD_VERIF",
             "enable": "No hook code lives in /repo: every monitor is attached from outside by /verif/harness (wrapping module attributes and class methods at worker start-up) and only when SYNAPGRAD_VERIF=1, which ./check sets for its workers. /repo is imported from its working tree by /venv/bin/python; nothing is built.",
